@@ -88,12 +88,24 @@ def bounded_registration_orders(tier, seed):
         class WA: pass          # classes WITH __dict__ (D8 region under default types)
         class WB(WA): pass
         yield 'with-dict', [WA, WB], [WA]
+        class _HasFieldsMeta(type):
+            def __instancecheck__(cls, inst):
+                return hasattr(type(inst), 'fields_')
+        class HasFields(metaclass=_HasFieldsMeta):     # a virtual / duck type: instance check only, no subclass relation (like glom's own _ObjStyleKeys)
+            __slots__ = ()
+        class Row:
+            __slots__ = ()
+            fields_ = ('a',)
+        class Plain:
+            __slots__ = ()
+        yield 'duck', [Row, Plain], [object, HasFields]
 
-    def nearest(regs, exacts, cls):
-        """regs: list of fuzzy-registered classes; exacts: exactly-registered ones. -> set of acceptable classes (or empty = unregistered)"""
+    def nearest(regs, exacts, cls, inst=None):
+        """regs: list of fuzzy-registered classes; exacts: exactly-registered ones. -> set of acceptable classes (or empty = unregistered);
+        a fuzzy registration covers the INSTANCES of the type (isinstance: real subclasses and virtual / duck types alike)"""
         if cls in regs or cls in exacts:
             return {cls}
-        cands = [r for r in regs if issubclass(cls, r)]
+        cands = [r for r in regs if issubclass(cls, r) or (inst is not None and isinstance(inst, r))]
         best = [r for r in cands if not any(o is not r and issubclass(o, r) for o in cands)]
         return set(best)
 
@@ -118,6 +130,9 @@ def bounded_registration_orders(tier, seed):
                     if default_types:
                         regs.append(list)                      # list is fuzzy-registered by the default types already
                         handlers[list] = reg.get_handler('get', [])
+                        if fname == 'duck':
+                            regs.append(object)                # ... and so is object (a later exact re-registration replaces its handler, not its place)
+                            handlers[object] = getattr
                     for i, cls in enumerate(order):
                         h = (lambda name: (lambda o, k: name))(cls.__name__ + '#%d' % i)
                         handlers[cls] = h
@@ -133,7 +148,7 @@ def bounded_registration_orders(tier, seed):
                                 inst = probe() if probe is not list else []
                             except Exception:
                                 continue
-                            ok_classes = nearest(regs, exacts, probe)
+                            ok_classes = nearest(regs, exacts, probe, inst)
                             try:
                                 got = reg.get_handler('get', inst)
                             except UnregisteredTarget:
@@ -159,7 +174,7 @@ def bounded_registration_orders(tier, seed):
                                                  'observed': getattr(got, '__name__', repr(got)) if got is not None else 'UnregisteredTarget',
                                                  'expected': 'handler of ' + '/'.join(sorted(c.__name__ for c in ok_classes)) if ok_classes else 'no user handler',
                                                  'replay_code': None})
-    return {'name': 'registration orders vs nearest-registered-type oracle', 'bound': '4 class families, every ordered subset, exact flag positions, re-registration, lookups after every step, with/without default types',
+    return {'name': 'registration orders vs nearest-registered-type oracle', 'bound': '5 class families (incl. a virtual / duck type), every ordered subset, exact flag positions, re-registration, lookups after every step, with/without default types',
             'cases': cases, 'failures': failures, 'label': 'bounded'}
 
 
